@@ -231,6 +231,7 @@ def main(argv):
     root = os.path.abspath(spec["root"])
     prefix = root + os.sep
     kill_at, partial = spec.get("kill_at"), spec.get("partial")
+    by_exception = spec.get("interrupt") == "exception"
     events = []
     state = {"n": 0}
 
@@ -264,6 +265,11 @@ def main(argv):
                         os.close(fd)
                 except OSError:
                     pass
+            if by_exception:
+                # interrupted by an exception instead (Ctrl-C): the stack unwinds, finally-blocks and context managers run, then the process ends
+                with open(os.path.join(root, "interrupted.marker"), "w") as f_:
+                    f_.write(str(n))
+                raise KeyboardInterrupt
             os._exit(99)
 
     AuditHub.add(handler)
